@@ -39,6 +39,9 @@ Methods == <<
   [cls |-> "A", name |-> "valsp",  ret |-> "vecnum", kind |-> "float", declared |-> TRUE, mode |-> "collptr", deref |-> 0],
   [cls |-> "A", name |-> "tref",   ret |-> "obj",    kind |-> "R1",  declared |-> TRUE, mode |-> "byvalue",  deref |-> 0],
   [cls |-> "A", name |-> "trefref", ret |-> "obj",   kind |-> "R2",  declared |-> TRUE, mode |-> "byvalue",  deref |-> 0],
+  \* a method for which the CMS backends carry a BUILT-IN default type (reco::Muon / pat::Muon::isPFMuon -> bool): the
+  \* query's own declaration (int) must win over it
+  [cls |-> "A", name |-> "isPFMuon", ret |-> "num", kind |-> "int", declared |-> TRUE, mode |-> "std", deref |-> 0],
   \* total indirection 3: a POINTER to a two-level smart reference, a DOUBLE pointer to a one-level one
   [cls |-> "A", name |-> "trefrefp", ret |-> "obj",  kind |-> "R2",  declared |-> TRUE, mode |-> "std",      deref |-> 0],
   [cls |-> "A", name |-> "trefpp", ret |-> "obj",    kind |-> "R1",  declared |-> TRUE, mode |-> "ptr2",     deref |-> 0],
